@@ -6,6 +6,7 @@ package vlab
 import (
 	"fmt"
 	"hash/fnv"
+	"os"
 	"sort"
 	"time"
 
@@ -135,6 +136,8 @@ type Explorer struct {
 
 type restart struct{}
 
+var debugSched = os.Getenv("VERIF_DEBUG_SCHED") != ""
+
 func (e *Explorer) Explore() {
 	start := time.Now()
 	e.Goals = map[string]bool{}
@@ -262,7 +265,7 @@ func (e *Explorer) explore(prefix []int, depth int) {
 		e.cut = true
 		return
 	}
-	cfg := vsched.Config{Prefix: prefix, Prune: e.pruneFn, W: e.w, EnvChoices: e.EnvChoices, Watchdog: 120 * time.Second}
+	cfg := vsched.Config{Prefix: prefix, Prune: e.pruneFn, W: e.w, EnvChoices: e.EnvChoices, YieldAfterRelease: e.NoConfirm, Watchdog: 120 * time.Second}
 	x := e.Run(cfg)
 	e.Stats.Execs++
 	e.Stats.TotalRuns++
@@ -274,6 +277,18 @@ func (e *Explorer) explore(prefix []int, depth int) {
 	if x.Res.Threads > e.Stats.MaxThreads {
 		e.Stats.MaxThreads = x.Res.Threads
 	}
+	if debugSched {
+		line := fmt.Sprintf("EXEC b=%d pruned=%v races=%d:", e.Bound, x.Res.Pruned, len(x.Races))
+		for _, p := range x.Res.Points {
+			line += fmt.Sprintf(" %s/t%d/%d", p.Label, p.Tid, p.Choice)
+		}
+		fmt.Fprintln(os.Stderr, line)
+	}
+	if len(x.Races) > 0 {
+		// the detector reports a race once per process: never lose a report, whatever happens to
+		// this execution afterwards (restart, pruning)
+		e.observeRaces(x)
+	}
 	if x.Res.Diverged != "" {
 		e.HarnessErr = fmt.Sprintf("scenario %s: replay diverged: %s (prefix %v)", e.Name, x.Res.Diverged, prefix)
 		return
@@ -284,9 +299,6 @@ func (e *Explorer) explore(prefix []int, depth int) {
 	}
 	if x.Res.Pruned {
 		e.Stats.Pruned++
-		if len(x.Races) > 0 && e.Check != nil {
-			e.observeRaces(x)
-		}
 	} else {
 		mine := e.NShards <= 1 || depth > 0 || e.Shard == 0
 		if mine {
@@ -361,7 +373,7 @@ func (e *Explorer) observe(x *Exec) {
 		// re-execute 5 times from the recorded choice vector: the same schedule must fail every time
 		conf := 0
 		for r := 0; r < 5; r++ {
-			y := e.Run(vsched.Config{Prefix: v.Choices, W: e.w, EnvChoices: e.EnvChoices, Watchdog: 120 * time.Second})
+			y := e.Run(vsched.Config{Prefix: v.Choices, W: e.w, EnvChoices: e.EnvChoices, YieldAfterRelease: e.NoConfirm, Watchdog: 120 * time.Second})
 			if y.Res.Diverged != "" || y.Outcome() != oc {
 				continue
 			}
@@ -433,15 +445,13 @@ func vschedCfg(prefix []int, env bool) vsched.Config {
 func (e *Explorer) observeRaces(x *Exec) {
 	for _, r := range x.Races {
 		v := V("C18", "race", r.Sig, "ThreadSanitizer report in an explored schedule:\n"+r.Text)
-		e.sigSeen[v.Sig]++
-		if e.sigSeen[v.Sig] > 1 {
+		if _, ok := e.sticky[v.Sig]; ok {
 			continue
 		}
 		v.Scenario = e.Name
 		v.Choices = x.Choices()
 		v.W = append([]uint64(nil), e.w...)
 		v.Trace = traceLines(x)
-		e.Violations = append(e.Violations, v)
 		e.sticky[v.Sig] = v
 	}
 }
